@@ -5,6 +5,7 @@
   `tools/rs2lean_opw.py` on every run).  Generic in the number type.
 -/
 import OpwVerif.Generated.SrcOpw
+import OpwVerif.Lemmas.SrcCtlTie
 namespace Opw
 variable {R : Type} [OpwNum R]
 
@@ -47,10 +48,28 @@ theorem inverseContinuing5dofSrc_eq (k : Opw R) (pose : Iso R) (prev : J6 R) :
 theorem inverseSrc_eq (k : Opw R) (pose : Iso R) : SrcOpw.inverseSrc k pose = k.inverse pose := by
   simp [SrcOpw.inverseSrc, Opw.inverse, filterCompliantSrc_eq, inverse5dofSrc_eq]
 
+/-- the shift table -/
+theorem shiftsSrc_eq : (SrcOpw.shiftsSrc : List (V3 R)) = shifts := rfl
+
+/-- the candidate assembled from the translated recovery block is the model's `singularCandidate` -/
+theorem recovered_eq (p : Params R) (previous raw : J6 R) :
+    ({ raw with j4 := (SrcCtl.singularCandidateSrc p previous raw).1, j5 := (SrcCtl.singularCandidateSrc p previous raw).2.1,
+                j6 := (SrcCtl.singularCandidateSrc p previous raw).2.2 } : J6 R) = singularCandidate p previous raw := by
+  rw [singularCandidateSrc_eq]; rfl
+
+/-- one iteration of the shift loop, with the translated recovery block plugged in, is the model's `shiftStep` -/
+theorem shiftStepSrc_eq (k : Opw R) (pose : Iso R) (previous : J6 R) (sols : List (J6 R)) (d : V3 R) :
+    SrcOpw.shiftStepSrc (fun prev raw => SrcCtl.singularCandidateSrc k.p prev raw) k pose previous sols d =
+      shiftStep k pose previous sols d := by
+  unfold SrcOpw.shiftStepSrc shiftStep
+  simp only [recovered_eq, compliantOptSrc_eq]
+  cases List.find? (fun s => kinematicSingularity k.p s && s.allFinite)
+      (inverseIntern k.p { t := { x := pose.t.x + d.x, y := pose.t.y + d.y, z := pose.t.z + d.z }, q := pose.q }) <;> rfl
+
 /-- `inverse_continuing` around the shift loop -/
 theorem inverseContinuingSrc_eq (k : Opw R) (pose : Iso R) (prev : J6 R) :
     SrcOpw.inverseContinuingSrc k pose prev = k.inverseContinuing pose prev := by
   simp [SrcOpw.inverseContinuingSrc, Opw.inverseContinuing, Opw.inverseContinuing6, Opw.reference, filterCompliantSrc_eq,
-    constraintCentersSrc_eq, inverseContinuing5dofSrc_eq]
+    constraintCentersSrc_eq, inverseContinuing5dofSrc_eq, shiftsSrc_eq]
 
 end Opw
